@@ -100,7 +100,44 @@ func placement(b *stacks.Built, dir string, prog int, modelVid func(string) int)
 	return out
 }
 
+// refsOK checks the part reference bookkeeping after a committed call: every part id referenced by
+// part rows has a registry row whose ref_count equals the number of referencing rows, and no registry
+// row counts references that do not exist (the invariant the code maintains at commit points and that
+// the garbage collector relies on; a drift deletes content that is still referenced, C08).
+func refsOK(b *stacks.Built) (bool, string) {
+	dbs := b.DB.Dbs()
+	if len(dbs) == 0 {
+		return true, ""
+	}
+	tx, err := dbs[0].BeginTx(context.Background(), &sql.TxOptions{ReadOnly: true})
+	if err != nil {
+		return false, err.Error()
+	}
+	defer tx.Rollback(context.Background())
+	rows, err := tx.SqlTx().Query(`SELECT x.part_id, x.n, COALESCE(r.ref_count, -1) FROM
+		(SELECT part_id, COUNT(*) AS n FROM parts GROUP BY part_id) x LEFT JOIN part_registry r ON r.part_id = x.part_id
+		WHERE COALESCE(r.ref_count, -1) <> x.n
+		UNION ALL
+		SELECT r.part_id, 0, r.ref_count FROM part_registry r WHERE NOT EXISTS (SELECT 1 FROM parts p WHERE p.part_id = r.part_id)`)
+	if err != nil {
+		return false, err.Error()
+	}
+	defer rows.Close()
+	for rows.Next() {
+		var id string
+		var n, rc int
+		if err := rows.Scan(&id, &n, &rc); err != nil {
+			return false, err.Error()
+		}
+		return false, "part " + id + ": " + itoa(n) + " rows, ref_count " + itoa(rc)
+	}
+	return true, ""
+}
+
 func itoa(n int) string {
+	if n < 0 {
+		return "-" + itoa(-n)
+	}
 	if n == 0 {
 		return "0"
 	}
